@@ -166,7 +166,7 @@ func findTarget(hf *ssa.Function) (*ssa.Function, bool, string) {
 				continue
 			}
 			if call.Call.IsInvoke() {
-				return nil, true, ifaceKey(call.Call.Value.Type(), call.Call.Method.Name())
+				return nil, true, ifaceKeyOf(&call.Call)
 			}
 			return call.Call.StaticCallee(), false, ""
 		}
@@ -216,6 +216,9 @@ func (e *Exec) symbolicArgs(st *State, params []*ssa.Parameter, maybeNil map[str
 func VerifyContract(w *World, c *Contract) (res *FuncResult) {
 	t0 := time.Now()
 	res = &FuncResult{Name: c.Display(), Contract: c, Ring: "contract"}
+	if c.Sweep {
+		res.Ring = "sweep"
+	}
 	e := NewExec(w)
 	e.curFunc = c.Display()
 	e.curProps = c.Props
@@ -347,7 +350,7 @@ func Discharge(obls []*Obligation, tmo time.Duration, workers int, dir string) [
 				}
 			}
 			if !solved && ground[i] != "" {
-				r = smt.Solve(dir, fname+"g", ground[i], tmo)
+				r = smt.SolveRace(dir, fname+"g", ground[i], tmo)
 				if r.Status == "unsat" {
 					r.Backend += "+inst"
 					solved = true
@@ -387,7 +390,7 @@ func Discharge(obls []*Obligation, tmo time.Duration, workers int, dir string) [
 				fname := fmt.Sprintf("o%05d", i)
 				var r smt.Result
 				if ground[i] != "" {
-					r = smt.Solve(dir, fname+"g", ground[i], 3*tmo)
+					r = smt.SolveRace(dir, fname+"g", ground[i], 3*tmo)
 					if r.Status == "unsat" {
 						r.Backend += "+inst"
 					}
